@@ -171,5 +171,6 @@ func Main() {
 	r.Floor("repeat_heights_compared:in-process-repeat", 5)
 	r.Floor("network_heights_with_txs", 3)
 	r.Floor("networks", 2)
+	r.Floor("blocks_with_evidence", 2)
 	r.Finish()
 }
